@@ -152,7 +152,7 @@ func (w *World) tagSide(a simrt.Action, it *Item, setHash []byte) {
 }
 
 var badBlockKinds = []string{"lastcommit-underweight", "lastcommit-foreign-votes", "apphash", "validatorshash", "lastblockid", "height",
-	"chainid", "numtxs", "datahash", "receiptshash", "lastcommithash", "proposer", "lastcommit-duplicate-slot", "lastcommit-wrong-height"}
+	"chainid", "numtxs", "datahash", "receiptshash", "lastcommithash", "proposer", "lastcommit-duplicate-slot", "lastcommit-wrong-height", "lastcommit-mixed-rounds"}
 
 // tamperBlock makes one thing wrong in a block a Byzantine proposer is about to propose. Honest
 // validators must never commit such a block (C02); whether they do is for the commit oracle to see.
@@ -168,6 +168,30 @@ func (w *World) tamperBlock(blk *types.Block, v *valInfo, idx int, variant int) 
 		return c
 	}
 	switch kind {
+	case "lastcommit-mixed-rounds":
+		// the complete, sufficient commit with the Byzantine validator's own precommit for the same block
+		// taken from another round: no single round is shown to have had +2/3
+		if h == 1 || blk.LastCommit == nil {
+			return false
+		}
+		ref := w.RefVals(h - 1)
+		if ref == nil {
+			return false
+		}
+		bidx := ref.indexOf(v.addr)
+		if bidx < 0 || bidx >= len(blk.LastCommit.Precommits) {
+			return false
+		}
+		var round int64
+		for _, pc := range blk.LastCommit.Precommits {
+			if pc != nil {
+				round = pc.Round
+			}
+		}
+		c := &types.Commit{BlockID: blk.LastCommit.BlockID, Precommits: append([]*types.Vote{}, blk.LastCommit.Precommits...)}
+		c.Precommits[bidx] = w.signVote(v, bidx, h-1, round+1+int64(variant%3), types.VoteTypePrecommit, c.BlockID)
+		blk.LastCommit = c
+		blk.Header.LastCommitHash = c.Hash()
 	case "lastcommit-underweight", "lastcommit-foreign-votes", "lastcommit-duplicate-slot", "lastcommit-wrong-height":
 		if h == 1 || blk.LastCommit == nil || len(blk.LastCommit.Precommits) == 0 {
 			return false
